@@ -91,6 +91,12 @@ CHECKS.update({
          "Oracle grammar/evaluator; arities >= 4 only over reduced leaf sets; one open known finding (a..b> writer form).", "§5 C02"),
 })
 
+CHECKS.update({
+ "C01": ("exhaustive enumeration of feature lists x deviation-bounded enumeration of every other record dimension, files laid out by an independent flat-file writer and compared field by field with the abstract record",
+         "An independent GenBank writer (keyword columns, continuation lines, feature-table columns, blank-wrapped values, comma-wrapped locations, mid-word wrapped /translation, numbered ORIGIN blocks, //) lays out abstract records. EVERY feature list up to length 2 (3 thorough) over 13 feature shapes (no qualifiers, '/' and '=' in values, values wrapping onto 1 and 2 lines, 2- and 3-line locations, complement, value-less and unquoted qualifiers, long /translation, ...) is combined with EVERY assignment of the other dimensions with at most 2 deviations (11 sequence lengths, locus name, molecule type, topology, division/date, DEFINITION/KEYWORDS/ORGANISM shapes, 0/1/2/5 references in 4 styles, COMMENT/DBLINK, 1/2/3/5 records per file, Parse/ParseMulti/ParseFlat, final newline). The real parser's result must equal the abstract record in every stated field, k records must come back in order and each equal to parsing that record alone; Read/ReadMulti/ReadFlat/ReadFlatGz on a 40-feature and a long record.",
+         "Generator asserts the quantifier's side conditions; words never longer than a line; deviations beyond 2 at once not covered.", "§5 C01"),
+})
+
 NOT_YET = {}
 
 props = [json.loads(l) for l in open('/verif/properties.jsonl')]
